@@ -17,7 +17,7 @@ RULE = ('polynomial programs R^N -> R^M (N,M <= 5) recorded at x_r with operand 
         'UTPM(3,2)}, drivers evaluated at x_r and at 3 other points (integer and real) with random and unit vectors v, w; '
         'results compared with exact rational derivatives (1e-9 x sum of absolute term values); jacobian(UTPM) compared entry '
         'by entry with the exact Taylor expansion along the curve; catalogue programs (incl. buffers, factorizations) and random '
-        'compositions compared with the forward-mode drivers; class = (driver, program kind, recording kind, evaluation at/away '
+        'compositions (intermediate values <= 1e6) compared with the forward-mode drivers, with float and integer-typed (int64/int32/int16, lists) arguments; gradient with a list of arrays for every catalogue program with several inputs; class = (driver, program kind, recording kind, evaluation at/away '
         'from the recording point); non-trivial = evaluation point != recording point')
 ASSUMPTIONS = ['exact Fraction arithmetic for polynomial programs', 'forward-mode drivers are validated independently by C09',
                'drivers that reject a shape by an explicit ValueError are counted as unsupported (vec_hess_vec needs w.shape == x.shape)']
